@@ -64,6 +64,8 @@ type Obligation struct {
 }
 
 type VCGen struct {
+	inRunDefers bool
+	panickingC  string
 	lockState *State // state right after the (single) monitor lock acquisition of this function
 	lockCount int
 	beforeApplied map[string]bool // "name.k" of the before clauses that attached to at least one site
@@ -665,4 +667,13 @@ func (g *VCGen) relevantAsserts(o Obligation) []string {
 		}
 	}
 	return out
+}
+
+// panickingConst: "this activation is unwinding because of a panic" (free in the function's own VC: a deferred
+// closure is verified for both cases)
+func (g *VCGen) panickingConst() string {
+	if g.panickingC == "" {
+		g.panickingC = g.declare("$panicking", "Bool")
+	}
+	return g.panickingC
 }
